@@ -424,6 +424,11 @@ def repeat(x, repeats, /, *, axis=0):
         x = flatten(x)
         axis = 0
     axis = validate_axis(axis, x.ndim)
+    if repeats < 0:
+        raise ValueError("repeats may not be negative")
+    if repeats == 0:
+        # nothing is repeated: an empty selection along the axis
+        return x[(slice(None),) * axis + (slice(0, 0),)]
 
     shape = x.shape[:axis] + (x.shape[axis] * repeats,) + x.shape[axis + 1 :]
     chunks = normalize_chunks(x.chunksize, shape=shape, dtype=x.dtype)
@@ -638,7 +643,12 @@ def tile(x, repetitions, /):
             x = expand_dims(x, axis=0)
     out = x
     for i, nrep in enumerate(repetitions):
-        if nrep > 1:
+        if nrep < 0:
+            raise ValueError("repetitions may not be negative")
+        if nrep == 0:
+            # no copies along this axis: an empty selection
+            out = out[(slice(None),) * i + (slice(0, 0),)]
+        elif nrep > 1:
             out = concat([out] * nrep, axis=i)
     return out
 
